@@ -11,13 +11,19 @@ from . import core
 
 CHECKS = {
     # property id -> module under harness/ providing run(tier, seed, verdict)
+    "C01": "c01",
     "C02": "c02",
     "C03": "c03",
     "C04": "c04",
     "C05": "c05",
+    "C06": "c06",
     "C07": "c07",
+    "C08": "c08",
     "C09": "c09",
+    "C10": "c10",
     "C12": "c12",
+    "C13": "c13",
+    "C15": "c15",
     "C19": "c19",
 }
 
